@@ -1088,6 +1088,34 @@ def check_c07(tier, seed):
             elif w.grad is not None or v.grad is not None:
                 b.fail("C07.bounded.stale", desc, "the leaf or its view still reports the old gradient after the in-place update")
             b.case(desc)
+    # assigning .shape is an in-place update too (C04): on a tensor that still holds a gradient -- a leaf, a view of one, a tensor whose view
+    # was back-propagated through, with or without views taken after the backward pass -- it works as on NumPy arrays, and the old gradient
+    # of the tensor (its memory keeps its values, but the statement is an in-place update: "the old value is gone") reads None afterwards
+    holders = [
+        ("leaf", lambda: (lambda x: (x, x, (x * x).sum()))(mg.tensor(rng.uniform(1, 2, size=(4,))))),
+        ("view of a leaf", lambda: (lambda x: (x, x[:4], None))(mg.tensor(rng.uniform(1, 2, size=(6,))))),
+        ("leaf whose view was back-propagated through", lambda: (lambda x: (x, x, (x[:2] * 2.0).sum()))(mg.tensor(rng.uniform(1, 2, size=(4,))))),
+        ("intermediate", lambda: (lambda x: (x, x * 1.0, None))(mg.tensor(rng.uniform(1, 2, size=(4,))))),
+    ]
+    for hn, hf in holders:
+        for late_view in (False, True):
+            owner, target, L = hf()
+            (L if L is not None else (target * target).sum()).backward()
+            desc = dict(target=hn, view_taken_after_backward=late_view, statement="target.shape = (2, 2)")
+            b.count("shape assignment on a gradient-holding tensor")
+            had = target.grad is not None
+            try:
+                w = target[1:] if late_view else None
+                ref = target.data.copy()
+                target.shape = (2, 2)
+            except Exception as e:
+                b.fail("C07.bounded.shape_assignment_on_grad_holder_raises", desc, f"{type(e).__name__}: {e}")
+                continue
+            if target.shape != (2, 2) or not np.array_equal(target.data, ref.reshape(2, 2)):
+                b.fail("C07.bounded.shape_assignment_value", desc, f"shape {target.shape}, values {target.data.tolist()}")
+            elif target.grad is not None:
+                b.fail("C07.bounded.stale", desc, "the tensor still reports the old gradient after the in-place update of its shape")
+            b.case(desc, nontrivial=had)
     # a nulled gradient stays gone -- for the tensor, the views it had and the views taken afterwards -- until the next backward,
     # whichever member was nulled and whatever (non-backward) statements follow
     vops = [("[::-1]", lambda t: t[::-1]), ("reshape", lambda t: t.reshape(-1, 1)), ("[...]", lambda t: t[...]), ("T", lambda t: t.T)]
